@@ -97,7 +97,7 @@ def events(f, region, P=None, depth=0, at=None, pmap=None):
     return out
 
 
-def check_symdiff(ctx, f, regions):
+def check_symdiff(ctx, f, regions, P=None):
     """R-SYMDIFF: in the two unreferenced-symbol regions, a deletion of the edit script indexes the *first* corpus' symbols
     and is kept as `deleted` exactly when the symbol is not found in the second corpus; an insertion indexes the *second*
     corpus' symbols and is kept as `added` only when the symbol is not found in the first (interpreted in the worlds
@@ -121,8 +121,9 @@ def check_symdiff(ctx, f, regions):
                         fld = field_of(f, y) if y["k"] == "MemberExpr" else None
                         if fld in ("first_", "second_"):
                             subs.add(fld)
-            looks = {e.split()[1].split("->")[0] for _, e in events(f, loop) if e.startswith("lookup ")}
-            stores = [n_ for n_, e in events(f, loop) if e.startswith("store ") and (("deleted" in e) == (kind == "deletions"))]
+            evs = events(f, loop, P)
+            looks = {e.split()[1].split("->")[0] for _, e in evs if e.startswith("lookup ")}
+            stores = [n_ for n_, e in evs if e.startswith("store ") and (("deleted" in e) == (kind == "deletions"))]
             want_sub, want_look = ("first_", "second_") if kind == "deletions" else ("second_", "first_")
             n += 1
             ok = subs == {want_sub} and looks == {want_look}
@@ -131,12 +132,39 @@ def check_symdiff(ctx, f, regions):
                    "the loop over the %s indexes %s and looks up in %s: the wrong symbols are reported" % (kind, sorted(subs), sorted(looks)))
             if not stores:
                 raise AnalysisBroken("anchor vanished: no store into the %s map in the %s loop of %s" % ("deleted" if kind == "deletions" else "added", kind, name))
+            if kind == "deletions":
+                # a removal is always reported: the deletion half asks one question, `is this very symbol (name and
+                # version) still there` - the re-export rule (empty-version re-lookup) belongs to the addition half only
+                extra = sorted({e.replace("first_->", "OTHER->").replace("second_->", "OTHER->") for _, e in evs
+                                if e.startswith(("lookup ", "version.", "empty-version")) and not e.endswith("/1")})
+                n += 1
+                ctx.ob("R-SYMDIFF", "%s: a deleted symbol is only looked up by name and version" % name, not extra, f.loc(loop),
+                       "the deletion loop performs the exact lookup only" if not extra else
+                       "the deletion loop also performs [%s]: a default-versioned symbol whose version changes (f@@V1 -> f@@V2), or "
+                       "that loses its version, is found again under the empty version and its removal is not reported - the "
+                       "incompatible-change bit is not set" % " ; ".join(extra))
+            else:
+                byname = sorted({e for _, e in evs if e.startswith("lookup ") and e.endswith("by-name")})
+                n += 1
+                ctx.ob("R-SYMDIFF", "%s: an added symbol is looked up by name and version, or by name and the empty version" % name,
+                       not byname, f.loc(loop),
+                       "no lookup by name alone" if not byname else
+                       "the insertion loop performs [%s]: a lookup by name alone finds the symbol under *any* version, so a new "
+                       "default version of a name the first binary only exports under another version is not reported as added" % " ; ".join(byname))
             for found in (True, False):
-                def atom(e):
-                    if e["k"] == "CXXMemberCallExpr" and (f.decl(e) or {}).get("n") in ("lookup_function_symbol", "lookup_variable_symbol"):
-                        return ["SYM" if found else None]
-                    return None
-                W = World(f, atom)
+                def mk_atom(g, depth=0):
+                    def atom(e):
+                        if e["k"] == "CXXMemberCallExpr" and (g.decl(e) or {}).get("n") in ("lookup_function_symbol", "lookup_variable_symbol"):
+                            return ["SYM" if found else None]
+                        if e["k"] == "CallExpr" and depth < 2:
+                            h = P.funcs.get((g.decl(e) or {}).get("u"))
+                            if h is not None and not h.dep and h.cfg() is not None and h.relfile == g.relfile and \
+                                    any(y["k"] == "CXXMemberCallExpr" and (h.decl(y) or {}).get("n") in ("lookup_function_symbol", "lookup_variable_symbol")
+                                        for y in h.nodes()):
+                                return sorted(World(h, mk_atom(h, depth + 1)).returns(), key=str)
+                        return None
+                    return atom
+                W = World(f, mk_atom(f))
                 track = {x.get("d") for x in f.nodes() if x["k"] == "VarDecl" and
                          (f.unit.type((f.unit.decl(x.get("d")) or {}).get("t")) or {}).get("s") in ("bool", "const bool")}
                 W.run_env(track)
@@ -179,7 +207,7 @@ def run(ctx):
     for a, b in PAIRS:
         if a not in regions or b not in regions:
             raise AnalysisBroken("anchor vanished: region for %s / %s" % (a, b))
-        ea, eb = events(f, regions[a]), events(f, regions[b])
+        ea, eb = events(f, regions[a], P), events(f, regions[b], P)
         n_ev += len(ea) + len(eb)
         sa, sb = [e for _, e in ea], [e for _, e in eb]
         name = "%s ~ %s" % (a.replace("_edit_script_", ""), b.replace("_edit_script_", ""))
@@ -198,7 +226,7 @@ def run(ctx):
                    "kind of symbol is re-looked-up differently from the other" % (
                        i, sa[i] if i < len(sa) else "<end>", f.loc(na), sb[i] if i < len(sb) else "<end>", f.loc(nb)))
     ctx.floor("R-SIBSYM", "symbol-lookup events", n_ev, 30)
-    check_symdiff(ctx, f, regions)
+    check_symdiff(ctx, f, regions, P)
     from rules import verlookup_rule
     verlookup_rule.check(ctx, ctx.program(verlookup_rule.UNITS))
     ctx.assume("the set arithmetic over the runtime symbol sets is not decided; the added/deleted asymmetry "
